@@ -667,3 +667,72 @@ Theorem C10_tie_lim_gen_waiting_borrower_rejected : forall s t b,
 Proof. exact gen_waiting_borrower_rejected. Qed.
 Print Assumptions C10_tie_lim_gen_waiting_borrower_rejected.
 
+
+(* ---- the entry check of CapacityLimiter.acquire_on_behalf_of() as a suspension (the limiter sibling of F53 / LockEntry).
+   LimiterEntry.estep extends the machine with calls made from an already effectively cancelled scope: the call sits in
+   checkpoint_if_cancelled() (spin t = Some borrower) until the cancellation is delivered (SpinCancel; or a native
+   Cancel followed by its Resume) or the check returns after its yield because the cancelled scope stopped being visible
+   (SpinReturn, F46); other tasks act on the limiter in between.  pinned = false is HEAD; pinned = true is the order
+   "test, check, take" that Lock / Semaphore had before F53 (CapacityLimiter never had it; refuted witness only).
+   `ereach v s` = s is reachable by LimiterEntry.estep false. ---- *)
+From AV Require Import LimiterEntry LimiterEntryThms.
+
+Theorem C10_lim_entry_projects_to_limiter : forall v s, ereach v s -> reach v (lim s).
+Proof. exact entry_projects_to_limiter. Qed.
+Print Assumptions C10_lim_entry_projects_to_limiter.
+
+Theorem C10_lim_entry_inherits : forall v s, ereach v s ->
+  NoDup (borrowers (lim s)) /\
+  (queue (lim s) <> [] -> free (borrowers (lim s)) (total (lim s)) = false) /\
+  NoDup (keys (queue (lim s))) /\
+  (forall b, In b (keys (queue (lim s))) -> ~ In b (borrowers (lim s))) /\
+  subseq (queue (lim s)) (arrivals (lim s)).
+Proof. exact entry_inherits. Qed.
+Print Assumptions C10_lim_entry_inherits.
+
+Theorem C10_lim_entry_cancelled_noeffect : forall s t b,
+  spin s t = None -> phase_of (lim s) t = Idle ->
+  let s1 := fst (estep false s (EnterCancelled t b)) in
+  snd (estep false s (EnterCancelled t b)) = RBlocked /\ lim s1 = lim s /\ spin s1 t = Some b /\
+  snd (estep false s1 (SpinCancel t)) = RCancelled /\ lim (fst (estep false s1 (SpinCancel t))) = lim s /\
+  spin (fst (estep false s1 (SpinCancel t))) t = None.
+Proof. exact entry_cancelled_noeffect. Qed.
+Print Assumptions C10_lim_entry_cancelled_noeffect.
+
+Theorem C10_lim_spinner_steps_noeffect : forall s t b o,
+  spin s t = Some b -> op_tid o = t ->
+  lim (fst (estep false s (L o))) = lim s /\
+  (snd (estep false s (L o)) = RCancelled -> ckmust s t = true /\ o = Resume t).
+Proof. exact spinner_steps_noeffect. Qed.
+Print Assumptions C10_lim_spinner_steps_noeffect.
+
+Theorem C10_lim_no_step_between_test_and_take : forall v s t b,
+  ereach v s -> spin s t = Some b -> ckmust s t = false ->
+  estep false s (SpinReturn t) =
+  (unspin s (fst (Limiter.step (lim s) (AcqOn t b))) t, snd (Limiter.step (lim s) (AcqOn t b))).
+Proof. exact no_step_between_test_and_take. Qed.
+Print Assumptions C10_lim_no_step_between_test_and_take.
+
+Theorem C10_lim_entry_grant_only_if_free : forall v s t b,
+  ereach v s -> spin s t = Some b -> ckmust s t = false ->
+  In b (borrowers (lim (fst (estep false s (SpinReturn t))))) -> ~ In b (borrowers (lim s)) ->
+  free (borrowers (lim s)) (total (lim s)) = true /\ queue (lim s) = [].
+Proof. exact entry_grant_only_if_free. Qed.
+Print Assumptions C10_lim_entry_grant_only_if_free.
+
+Theorem C10_lim_check_then_take_across_yield_refuted_pinned :
+  let s := final (estep true) (einit (Some 1)) f53_ops in
+  borrowers (lim s) = [1; 2] /\ total (lim s) = Some 1 /\
+  snd (estep true (final (estep true) (einit (Some 1)) [EnterCancelled 1 1]) (L (AcqOnNowait 2 2))) = RDone /\
+  ~ length (borrowers (lim s)) <= 1.
+Proof. exact lim_check_then_take_across_yield_refuted_pinned. Qed.
+Print Assumptions C10_lim_check_then_take_across_yield_refuted_pinned.
+
+Theorem C10_lim_entry_nonvacuous :
+  (let s := final (estep false) (einit (Some 1)) f53_ops in
+   borrowers (lim s) = [2] /\ phase_of (lim s) 1 = Waiting 1 0 /\ queue (lim s) = [(1, 0)] /\ ereach (Some 1) s) /\
+  (let s := final (estep false) (einit (Some 1)) [L (AcqOnNowait 2 2); EnterCancelled 1 7; L (Cancel 1)] in
+   spin s 1 = Some 7 /\ ckmust s 1 = true /\ borrowers (lim s) = [2] /\ ereach (Some 1) s /\
+   snd (estep false s (L (Resume 1))) = RCancelled /\ snd (estep false s (SpinReturn 1)) = RCancelled).
+Proof. exact (conj f53_head ex_entry_hyp). Qed.
+Print Assumptions C10_lim_entry_nonvacuous.
